@@ -23,6 +23,7 @@ type joinRow struct{ owner, target tuple }
 
 type dataset struct {
 	w     *world
+	p     profile
 	rows  map[*model][]*row
 	joins []joinRow
 }
@@ -110,17 +111,34 @@ var strPool = []string{"a", "b", "c", "a_b", "b_c", "a_", "_b", "_", "nil", "0",
 var segPool = []string{"a", "b", "c", "", "nil", "0", "1", "00", " ", "a,b", "x y", "_", "7"}
 var intPool = []int64{0, 1, 2, 3, 7, 10, -1, 100, 12}
 
-func genPart(r *core.Rand, k kind) val {
+// profile biases a data graph towards ONE class of string-identity hazard, so that what fires
+// can be named; which hazards a graph really carries is measured afterwards (hazards()).
+type profile int
+
+const (
+	pClean   profile = iota // hostile contents, but no generator aimed at a hazard
+	pSep                    // composite string keys that collide after joining with the separator
+	pNullNil                // partially NULL foreign keys next to keys holding the text "nil"
+	pZero                   // composite keys with an integer part 0 (value 0, pointer to 0, NULL)
+)
+
+var profileNames = []string{"clean", "separator", "null-nil", "zero"}
+
+func genPart(r *core.Rand, k kind, p profile) val {
 	if k == kInt {
-		return core.Pick(r, intPool)
+		for {
+			if x := core.Pick(r, intPool); x != 0 || p == pZero {
+				return x
+			}
+		}
 	}
 	return core.Pick(r, strPool)
 }
 
-func genTuple(r *core.Rand, kinds []kind) tuple {
+func genTuple(r *core.Rand, kinds []kind, p profile) tuple {
 	t := make(tuple, len(kinds))
 	for i, k := range kinds {
-		t[i] = genPart(r, k)
+		t[i] = genPart(r, k, p)
 	}
 	return t
 }
@@ -145,7 +163,7 @@ func resplit(r *core.Rand, t tuple) tuple {
 }
 
 // genKeys returns n..n+1 distinct key tuples, none of them all-zero.
-func genKeys(r *core.Rand, kinds []kind, n int) []tuple {
+func genKeys(r *core.Rand, kinds []kind, n int, p profile) []tuple {
 	var keys []tuple
 	seen := map[string]bool{}
 	add := func(t tuple) {
@@ -157,37 +175,41 @@ func genKeys(r *core.Rand, kinds []kind, n int) []tuple {
 	}
 	for tries := 0; len(keys) < n && tries < 100; tries++ {
 		switch {
-		case isSS(kinds) && r.Chance(2, 5):
+		case p == pSep && isSS(kinds) && r.Chance(2, 5):
 			// a cluster that collides only after joining with the separator
 			s1, s2, s3 := core.Pick(r, segPool), core.Pick(r, segPool), core.Pick(r, segPool)
 			add(tuple{s1, s2 + "_" + s3})
 			add(tuple{s1 + "_" + s2, s3})
-		case len(kinds) == 2 && len(keys) > 0 && r.Chance(1, 4):
-			// a twin whose first part is the zero-like text / number: (NULL, y) and (&0, y) on the
-			// foreign side are rendered like it by a string identity
+		case len(kinds) == 2 && len(keys) > 0 && (p == pNullNil || p == pZero) && r.Chance(1, 3):
+			// a twin with a zero-like part: the text "nil" resp. the number 0; (NULL, y) and (&0, y)
+			// on the foreign side are candidates for being confused with it by a string identity
 			base := core.Pick(r, keys)
-			if kinds[0] == kStr {
-				add(tuple{core.Pick(r, []string{"nil", "0", ""}), base[1]})
-			} else {
-				add(tuple{int64(0), base[1]})
+			i := r.Intn(2)
+			t := append(tuple(nil), base...)
+			switch {
+			case kinds[i] == kStr && p == pNullNil:
+				t[i] = "nil"
+			case kinds[i] == kInt && p == pZero:
+				t[i] = int64(0)
 			}
+			add(t)
 		case len(kinds) == 2 && len(keys) > 0 && r.Chance(1, 4):
 			// share one part with an existing key
 			base := core.Pick(r, keys)
 			if r.Bool() {
-				add(tuple{base[0], genPart(r, kinds[1])})
+				add(tuple{base[0], genPart(r, kinds[1], p)})
 			} else {
-				add(tuple{genPart(r, kinds[0]), base[1]})
+				add(tuple{genPart(r, kinds[0], p), base[1]})
 			}
 		default:
-			add(genTuple(r, kinds))
+			add(genTuple(r, kinds, p))
 		}
 	}
 	return keys
 }
 
 // genFK generates a foreign-key tuple aimed at targets; nullable[i] says whether part i may be NULL.
-func genFK(r *core.Rand, kinds []kind, targets []tuple, nullable []bool) tuple {
+func genFK(r *core.Rand, kinds []kind, targets []tuple, nullable []bool, p profile) tuple {
 	anyNullable, allNullable := false, true
 	for _, n := range nullable {
 		anyNullable = anyNullable || n
@@ -195,7 +217,7 @@ func genFK(r *core.Rand, kinds []kind, targets []tuple, nullable []bool) tuple {
 	}
 	existing := func() tuple {
 		if len(targets) == 0 {
-			return genTuple(r, kinds)
+			return genTuple(r, kinds, p)
 		}
 		return append(tuple(nil), core.Pick(r, targets)...)
 	}
@@ -209,19 +231,19 @@ func genFK(r *core.Rand, kinds []kind, targets []tuple, nullable []bool) tuple {
 		return existing()
 	case x < 16:
 		// dangling, preferably one that collides with an existing key after joining
-		if isSS(kinds) && len(targets) > 0 {
+		if p == pSep && isSS(kinds) && len(targets) > 0 {
 			if t := resplit(r, core.Pick(r, targets)); t != nil {
 				return t
 			}
 		}
-		return genTuple(r, kinds)
+		return genTuple(r, kinds, p)
 	case x < 19:
 		// partial NULL (composite only)
 		t := existing()
-		if len(kinds) > 1 && anyNullable {
+		if len(kinds) > 1 && anyNullable && p != pSep {
 			for tries := 0; tries < 8; tries++ {
 				i := r.Intn(len(kinds))
-				if nullable[i] {
+				if nullable[i] && (p != pZero || kinds[i] == kInt) {
 					t[i] = nil
 					break
 				}
@@ -232,10 +254,10 @@ func genFK(r *core.Rand, kinds []kind, targets []tuple, nullable []bool) tuple {
 		// pointer to a zero value in one part
 		t := existing()
 		i := r.Intn(len(kinds))
-		if kinds[i] == kInt {
-			t[i] = int64(0)
-		} else {
+		if kinds[i] == kStr {
 			t[i] = ""
+		} else if p == pZero {
+			t[i] = int64(0)
 		}
 		return t
 	}
@@ -249,13 +271,13 @@ func nullableOf(m *model, cols []string) []bool {
 	return out
 }
 
-func genDataset(r *core.Rand, w *world) *dataset {
-	ds := &dataset{w: w, rows: map[*model][]*row{}}
+func genDataset(r *core.Rand, w *world, p profile) *dataset {
+	ds := &dataset{w: w, p: p, rows: map[*model][]*row{}}
 	nk := len(w.kinds)
 	keyCols := w.node.rels[1].ownerCols  // Subs: node key
 	bossCols := w.node.rels[0].ownerCols // Boss: boss_* on node
-	nodeKeys := genKeys(r, w.kinds, r.Range(2, 6))
-	tagKeys := genKeys(r, w.kinds, r.Range(1, 4))
+	nodeKeys := genKeys(r, w.kinds, r.Range(2, 6), p)
+	tagKeys := genKeys(r, w.kinds, r.Range(1, 4), p)
 	u := int64(0)
 	next := func() int64 { u++; return u }
 	set := func(rw *row, cols []string, t tuple) {
@@ -269,7 +291,7 @@ func genDataset(r *core.Rand, w *world) *dataset {
 		rw.vals["u"] = rw.u
 		rw.vals["v"] = int64(r.Intn(4))
 		set(rw, keyCols, k)
-		set(rw, bossCols, genFK(r, w.kinds, nodeKeys, nullableOf(w.node, bossCols)))
+		set(rw, bossCols, genFK(r, w.kinds, nodeKeys, nullableOf(w.node, bossCols), p))
 		ds.rows[w.node] = append(ds.rows[w.node], rw)
 	}
 	// items
@@ -278,7 +300,7 @@ func genDataset(r *core.Rand, w *world) *dataset {
 		rw := &row{u: next(), vals: map[string]val{}, deleted: r.Chance(1, 5)}
 		rw.vals["u"] = rw.u
 		rw.vals["v"] = int64(r.Intn(4))
-		set(rw, ownCols, genFK(r, w.kinds, nodeKeys, nullableOf(w.item, ownCols)))
+		set(rw, ownCols, genFK(r, w.kinds, nodeKeys, nullableOf(w.item, ownCols), p))
 		ds.rows[w.item] = append(ds.rows[w.item], rw)
 	}
 	// cards: at most one live card per key tuple (which candidate a has-one picks among several is
@@ -309,7 +331,7 @@ func genDataset(r *core.Rand, w *world) *dataset {
 		}
 	}
 	for i, n := 0, r.Intn(3); i < n; i++ {
-		addCard(genFK(r, w.kinds, nodeKeys, nullableOf(w.card, cardCols)), r.Chance(1, 4))
+		addCard(genFK(r, w.kinds, nodeKeys, nullableOf(w.card, cardCols), p), r.Chance(1, 4))
 	}
 	// tags and join rows
 	tagCols := w.node.rel("Tags").targetCols
@@ -341,7 +363,7 @@ func genDataset(r *core.Rand, w *world) *dataset {
 		}
 	}
 	for i, n := 0, r.Intn(4); i < n; i++ {
-		addJoin(genFK(r, w.kinds, nodeKeys, noNull), genFK(r, w.kinds, tagKeys, noNull))
+		addJoin(genFK(r, w.kinds, nodeKeys, noNull, p), genFK(r, w.kinds, tagKeys, noNull, p))
 	}
 	// polymorphic children
 	if w.pic != nil {
@@ -349,7 +371,7 @@ func genDataset(r *core.Rand, w *world) *dataset {
 			rw := &row{u: next(), vals: map[string]val{}}
 			rw.vals["u"] = rw.u
 			rw.vals["v"] = int64(r.Intn(4))
-			rw.vals["owner_id"] = genFK(r, w.kinds, nodeKeys, []bool{false})[0]
+			rw.vals["owner_id"] = genFK(r, w.kinds, nodeKeys, []bool{false}, p)[0]
 			rw.vals["owner_type"] = core.Pick(r, []string{"node", "node", "node", "tag", "nodes", "Node", ""})
 			ds.rows[w.pic] = append(ds.rows[w.pic], rw)
 		}
@@ -477,11 +499,16 @@ func (ds *dataset) byU(m *model, u int64) *row {
 
 // ---- classification of a mismatch by the key contents involved ------------------------
 
-// hostility reports which class of string-identity hazard the key tuples of relation rl carry
-// in this dataset ("" = none): used only to give genuine deviations a stable signature.
-func (ds *dataset) hostility(rl *rel) string {
+// hazards reports which classes of string-identity hazard the key tuples of relation rl carry
+// in this dataset (measured, not assumed): used only to give genuine deviations a stable
+// signature; a relation without any hazard must load exactly the reference join.
+//
+//	composite-key-collision  two distinct NULL-free tuples give the same text when joined by "_"
+//	null-part-vs-nil-text    a tuple with a NULL part equals another one after writing "nil" for NULL
+//	zero-int-key-part        a composite tuple has an integer part 0
+func (ds *dataset) hazards(rl *rel) []string {
 	if !rl.composite() {
-		return ""
+		return nil
 	}
 	var hops [][]tuple
 	collect := func(m *model, cols []string) []tuple {
@@ -490,13 +517,6 @@ func (ds *dataset) hostility(rl *rel) string {
 			out = append(out, r.tuple(cols))
 		}
 		return out
-	}
-	ptrInvolved := false
-	for _, c := range rl.ownerCols {
-		ptrInvolved = ptrInvolved || rl.owner.col(c).ptr
-	}
-	for _, c := range rl.targetCols {
-		ptrInvolved = ptrInvolved || rl.target.col(c).ptr
 	}
 	if rl.kind == many2many {
 		h1 := collect(rl.owner, rl.ownerCols)
@@ -509,12 +529,12 @@ func (ds *dataset) hostility(rl *rel) string {
 	} else {
 		hops = [][]tuple{append(collect(rl.owner, rl.ownerCols), collect(rl.target, rl.targetCols)...)}
 	}
-	plain := func(t tuple, null string) string {
+	plain := func(t tuple) string {
 		p := make([]string, len(t))
 		for i, v := range t {
 			switch x := v.(type) {
 			case nil:
-				p[i] = null
+				p[i] = "nil"
 			case int64:
 				p[i] = strconv.FormatInt(x, 10)
 			case string:
@@ -526,7 +546,7 @@ func (ds *dataset) hostility(rl *rel) string {
 	collide := func(ts []tuple) bool {
 		seen := map[string]string{}
 		for _, t := range ts {
-			k := plain(t, "nil")
+			k := plain(t)
 			if id, ok := seen[k]; ok && id != t.ident() {
 				return true
 			}
@@ -534,32 +554,36 @@ func (ds *dataset) hostility(rl *rel) string {
 		}
 		return false
 	}
+	var out []string
+	sep, null, zero := false, false, false
 	for _, h := range hops {
 		var nn []tuple
 		for _, t := range h {
 			if !hasNull(t) {
 				nn = append(nn, t)
 			}
-		}
-		if collide(nn) {
-			return "composite-key-collision"
-		}
-	}
-	for _, h := range hops {
-		if collide(h) {
-			return "null-part-vs-nil-text"
-		}
-	}
-	for _, h := range hops {
-		for _, t := range h {
 			for _, v := range t {
 				if x, ok := v.(int64); ok && x == 0 {
-					return "zero-int-key-part"
+					zero = true
 				}
 			}
 		}
+		if collide(nn) {
+			sep = true
+		} else if collide(h) {
+			null = true
+		}
 	}
-	return ""
+	if sep {
+		out = append(out, "composite-key-collision")
+	}
+	if null {
+		out = append(out, "null-part-vs-nil-text")
+	}
+	if zero {
+		out = append(out, "zero-int-key-part")
+	}
+	return out
 }
 
 func (ds *dataset) dump() map[string][]string {
